@@ -245,6 +245,14 @@ let () =
     | ["RUN"; fuel; script; cache] ->
       let o = run_script orc !cfg (nat_of_int (int_of_string fuel)) (bytes_of_hex script) (parse_cache cache) in
       print_string ("= " ^ outcome_str o ^ "\n")
+    | ["MT"; packed; path] ->
+      let h b = (match orc PSha256 [b] with OOk [x] -> x | _ -> failwith "sha256 oracle") in
+      let p = List.filter_map (fun c -> match c with 'L' -> Some L | 'R' -> Some R | _ -> None) (List.of_seq (String.to_seq path)) in
+      (match mt_check h (bytes_of_hex packed) p with
+       | Some ((lk, un), pk) ->
+         let o = function Some b -> hex_of_bytes b | None -> "none" in
+         print_string ("= ok " ^ hex_of_bytes lk ^ " " ^ o un ^ " " ^ o pk ^ "\n")
+       | None -> print_string "= none\n")
     | ["RUNF"; fuel; fcode; script; cache] ->
       let o = run_script_fork orc !cfg (nat_of_int (int_of_string fcode)) (nat_of_int (int_of_string fuel)) (bytes_of_hex script) (parse_cache cache) in
       print_string ("= " ^ outcome_str o ^ "\n")
@@ -329,6 +337,7 @@ let () =
         | "delegate_key_witness" -> delegate_key_witness (a 0) (a 1)
         | "graftroot_lock" -> graftroot_lock (a 0) (b1 1)
         | "taproot_lock" -> taproot_lock (a 0) (b1 1)
+        | "nonnative_taproot_lock" -> nonnative_taproot_lock (a 0) (b1 1)
         | "merkle_lock" -> merkle_lock (a 0)
         | "adapter_check_lock" -> adapter_check_lock (b1 0) (a 1) (a 2)
         | "adapter_decrypt" -> adapter_decrypt (a 0)
